@@ -45,9 +45,9 @@ def memsetEndT (p : PbT) (ch : UInt8) (len : Int) : A (PbT × Int) :=
     pure ({ p with dropped := true }, -1)
   else do
     let need := offset + len
-    let (q, rc) ← if (p.pa.size : Int) < need then pbExtend p.pa need else pure (p.pa, 0)
-    if rc < 0 then pure ({ p with pa := q, dropped := true }, -1)
-    else pure ({ p with pa := { q with bpos := need.toNat }, text := p.text ++ List.replicate len.toNat ch }, 0)
+    let r ← (if (p.pa.size : Int) < need then pbExtend p.pa need else pure (p.pa, 0))
+    if r.2 < 0 then pure ({ p with pa := r.1, dropped := true }, -1)
+    else pure ({ p with pa := { r.1 with bpos := need.toNat }, text := p.text ++ List.replicate len.toNat ch }, 0)
 
 def hasFlag (flags bit : Nat) : Bool := flags &&& bit ≠ 0
 
@@ -69,8 +69,8 @@ def bytesNull : Bytes := [110, 117, 108, 108]
 /-- static void indent(struct printbuf *pb, int level, int flags) -/
 def indentT (p : PbT) (level : Nat) (flags : Nat) : A PbT :=
   if hasFlag flags toStringPretty then do
-    let (q, _) ← if hasFlag flags toStringPrettyTab then memsetEndT p 9 level else memsetEndT p 32 (level * 2)
-    pure q
+    let r ← (if hasFlag flags toStringPrettyTab then memsetEndT p 9 level else memsetEndT p 32 (level * 2))
+    pure r.1
   else pure p
 
 def colorReset : Bytes := [27, 91, 48, 109]
@@ -138,6 +138,24 @@ def cstr : Bytes → Bytes
   | [] => []
   | c :: cs => if c = 0 then [] else c :: cstr cs
 
+def isNullV : JVal → Bool
+  | .null => true
+  | _ => false
+
+/-- what the container emitters write before each child: separator, newline, space, indentation -/
+def sepT (flags : Nat) (had : Bool) (level : Nat) (p : PbT) : A PbT := do
+  let p ← litIf had p [44]
+  let p ← litIf (hasFlag flags toStringPretty) p [10]
+  let p ← litIf (spacedOnly flags) p [32]
+  indentT p (level + 1) flags
+
+/-- what they write after the last child; the result of the final append is the emitter's result -/
+def closeT (flags : Nat) (had : Bool) (level : Nat) (c : UInt8) (p : PbT) : A (PbT × Int) := do
+  let p ← (if hasFlag flags toStringPretty ∧ had then (do
+      let p ← lit p [10]
+      indentT p level flags) else pure p)
+  (if spacedOnly flags then appendT p [32, c] else appendT p [c])
+
 mutual
   /-- jso->_to_json_string(jso, pb, level, flags): (printbuf, return value).
   `none` = a value this model does not cover (a double without retained text). -/
@@ -145,19 +163,18 @@ mutual
     | .null, _, p => pure (some (p, 0))            -- never called: NULL children are written by the container
     | .bool b, _, p => do
       let p ← litIf (hasFlag flags toStringColor) p colorMagenta
-      let (p, ret) ← appendT p (if b then bytesTrue else bytesFalse)
-      if ret > -1 ∧ hasFlag flags toStringColor then do
-        let (p, r2) ← appendT p colorReset
-        pure (some (p, r2))
-      else pure (some (p, ret))
+      let r ← appendT p (if b then bytesTrue else bytesFalse)
+      if r.2 > -1 ∧ hasFlag flags toStringColor then do
+        let r2 ← appendT r.1 colorReset
+        pure (some r2)
+      else pure (some r)
     | .int _ v, _, p => do
       let r ← appendT p (intBytes v)
       pure (some r)
     | .dbl _ (some t), _, p => do
       -- json_object_userdata_to_json_string: the result of the append is not looked at
-      let t := cstr t
-      let (p, _) ← appendT p t
-      pure (some (p, t.length))
+      let r ← appendT p (cstr t)
+      pure (some (r.1, (cstr t).length))
     | .dbl _ none, _, _ => pure none
     | .str s, _, p => do
       let p ← quotedT flags colorGreen s p
@@ -167,11 +184,7 @@ mutual
       match ← serElemsT flags xs level false p with
       | none => pure none
       | some (p, false, had) => do
-        let p ← if hasFlag flags toStringPretty ∧ had then do
-            let p ← lit p [10]
-            indentT p level flags
-          else pure p
-        let r ← if spacedOnly flags then appendT p [32, 93] else appendT p [93]
+        let r ← closeT flags had level 93 p
         pure (some r)
       | some (p, true, _) => pure (some (p, -1))
     | .obj kvs, level, p => do
@@ -179,47 +192,112 @@ mutual
       match ← serMembersT flags kvs level false p with
       | none => pure none
       | some (p, false, had) => do
-        let p ← if hasFlag flags toStringPretty ∧ had then do
-            let p ← lit p [10]
-            indentT p level flags
-          else pure p
-        let r ← if spacedOnly flags then appendT p [32, 125] else appendT p [125]
+        let r ← closeT flags had level 125 p
         pure (some r)
       | some (p, true, _) => pure (some (p, -1))
   /-- the element loop: (printbuf, a child returned < 0, had_children) -/
   def serElemsT (flags : Nat) : List JVal → Nat → Bool → PbT → A (Option (PbT × Bool × Bool))
     | [], _, had, p => pure (some (p, false, had))
     | x :: xs, level, had, p => do
-      let p ← litIf had p [44]
-      let p ← litIf (hasFlag flags toStringPretty) p [10]
-      let p ← litIf (spacedOnly flags) p [32]
-      let p ← indentT p (level + 1) flags
-      match x with
-      | .null => do
+      let p ← sepT flags had level p
+      if isNullV x then do
         let p ← nullT flags p
         serElemsT flags xs level true p
-      | _ =>
+      else
         match ← serT flags x (level + 1) p with
         | none => pure none
         | some (p, rc) => if rc < 0 then pure (some (p, true, true)) else serElemsT flags xs level true p
   def serMembersT (flags : Nat) : List (Bytes × JVal) → Nat → Bool → PbT → A (Option (PbT × Bool × Bool))
     | [], _, had, p => pure (some (p, false, had))
     | (k, v) :: kvs, level, had, p => do
-      let p ← litIf had p [44]
-      let p ← litIf (hasFlag flags toStringPretty) p [10]
-      let p ← litIf (spacedOnly flags) p [32]
-      let p ← indentT p (level + 1) flags
+      let p ← sepT flags had level p
       let p ← quotedT flags colorBlue (cstr k) p
-      let p ← if hasFlag flags toStringSpaced then lit p [58, 32] else lit p [58]
-      match v with
-      | .null => do
+      let p ← lit p (if hasFlag flags toStringSpaced then [58, 32] else [58])
+      if isNullV v then do
         let p ← nullT flags p
         serMembersT flags kvs level true p
-      | _ =>
+      else
         match ← serT flags v (level + 1) p with
         | none => pure none
         | some (p, rc) => if rc < 0 then pure (some (p, true, true)) else serMembersT flags kvs level true p
 end
+
+/-! ### the complete text: what the emitters write when every append is served -/
+
+def escText (flags : Nat) : Bytes → Bytes
+  | [] => []
+  | c :: cs =>
+    (match shortEscape c with
+      | some e => if hasFlag flags toStringNoSlashEscape ∧ c = 47 then [c] else e
+      | none => if c < 32 then [92, 117, 48, 48] ++ [hexLower (c.toNat / 16), hexLower (c.toNat % 16)] else [c])
+    ++ escText flags cs
+
+def colorIf (flags : Nat) (c : Bytes) : Bytes := if hasFlag flags toStringColor then c else []
+
+def quotedText (flags : Nat) (color s : Bytes) : Bytes :=
+  colorIf flags color ++ ([34] ++ (escText flags s ++ ([34] ++ colorIf flags colorReset)))
+
+def nullText (flags : Nat) : Bytes := colorIf flags colorMagenta ++ (bytesNull ++ colorIf flags colorReset)
+
+def indentText (level flags : Nat) : Bytes :=
+  if hasFlag flags toStringPretty then
+    (if hasFlag flags toStringPrettyTab then List.replicate level 9 else List.replicate (level * 2) 32)
+  else []
+
+/-- separator, newline, space and indentation written before a child -/
+def sepText (flags : Nat) (had : Bool) (level : Nat) : Bytes :=
+  (if had then [44] else []) ++ ((if hasFlag flags toStringPretty then [10] else []) ++
+    ((if spacedOnly flags then [32] else []) ++ indentText (level + 1) flags))
+
+/-- what follows the last child: newline + indentation in pretty mode, then the closing bracket -/
+def closeText (flags : Nat) (had : Bool) (level : Nat) (c : UInt8) : Bytes :=
+  (if hasFlag flags toStringPretty ∧ had then [10] ++ indentText level flags else []) ++
+    (if spacedOnly flags then [32, c] else [c])
+
+mutual
+  /-- the text `_to_json_string` appends for a value (`none`: a double without retained text) -/
+  def emit (flags : Nat) : JVal → Nat → Option Bytes
+    | .null, _ => some []
+    | .bool b, _ => some (colorIf flags colorMagenta ++ ((if b then bytesTrue else bytesFalse) ++ colorIf flags colorReset))
+    | .int _ v, _ => some (intBytes v)
+    | .dbl _ (some t), _ => some (cstr t)
+    | .dbl _ none, _ => none
+    | .str s, _ => some (quotedText flags colorGreen s)
+    | .arr xs, level =>
+      match emitElems flags xs level false with
+      | none => none
+      | some (t, had) => some ([91] ++ (t ++ closeText flags had level 93))
+    | .obj kvs, level =>
+      match emitMembers flags kvs level false with
+      | none => none
+      | some (t, had) => some ([123] ++ (t ++ closeText flags had level 125))
+  def emitElems (flags : Nat) : List JVal → Nat → Bool → Option (Bytes × Bool)
+    | [], _, had => some ([], had)
+    | x :: xs, level, had =>
+      match (if isNullV x then some (nullText flags) else emit flags x (level + 1)) with
+      | none => none
+      | some c =>
+        match emitElems flags xs level true with
+        | none => none
+        | some (t, had') => some (sepText flags had level ++ (c ++ t), had')
+  def emitMembers (flags : Nat) : List (Bytes × JVal) → Nat → Bool → Option (Bytes × Bool)
+    | [], _, had => some ([], had)
+    | (k, v) :: kvs, level, had =>
+      match (if isNullV v then some (nullText flags) else emit flags v (level + 1)) with
+      | none => none
+      | some c =>
+        match emitMembers flags kvs level true with
+        | none => none
+        | some (t, had') =>
+          some (sepText flags had level ++ (quotedText flags colorBlue (cstr k) ++
+            ((if hasFlag flags toStringSpaced then [58, 32] else [58]) ++ (c ++ t))), had')
+end
+
+/-- the complete text of json_object_to_json_string_ext(jso, flags) -/
+def fullText (v : JVal) (flags : Nat) : Option Bytes :=
+  match v with
+  | .null => some bytesNull
+  | _ => emit flags v 0
 
 /-- what json_object_to_json_string_length leaves: the text returned (`none` = NULL) and the printbuf
 now cached in the node (`none` = printbuf_new failed) -/
